@@ -1416,3 +1416,108 @@ def gen_pipeline():
     closed = log.count('Closed under the global context') == 2
     return ('pipeline: generated jump scan applied to the generated event extraction = consecutive distinct visited sites (default settings), and a subset of them '
             'for stricter settings (gen_pipeline_default, gen_pipeline_strict; closed under the global context)', ok and closed, 'ok' if ok and closed else log[-600:])
+
+
+# ---------------------------------------------------------------- unit: shape of mean_squared_displacement (C06)
+def gen_msd_shape():
+    """Statement-level check of Trajectory.mean_squared_displacement against the structure Model.C06 transcribes (S1 by the cumulative-sum
+    recursion, S2 as the zero-padded FFT autocorrelation truncated to n_times lags, both divided by the window n_times - lag, MSD = S1 - 2 S2),
+    of distances_from_base_position/_lengths (metric tensor of the cell) and of cumulative_displacements."""
+    try:
+        tree = _parse('trajectory.py')
+        f = _find_func(tree, 'Trajectory', 'mean_squared_displacement')
+        src = [ast.unparse(s) for s in f.body if not (isinstance(s, ast.Expr) and isinstance(s.value, ast.Constant))]
+        want = ['r = self.cumulative_displacements', 'lattice = self.get_lattice()', 'r = lattice.get_cartesian_coords(r)', 'pos = np.transpose(r, (1, 0, 2))',
+                'n_times = pos.shape[1]', 'fft_result = np.fft.ifft(np.abs(np.fft.fft(pos, n=2 * n_times, axis=-2)) ** 2, axis=-2)',
+                'fft_result = fft_result[:, :n_times, :].real', 'S2 = np.sum(fft_result, axis=-1) / (n_times - np.arange(n_times)[None, :])',
+                'D = np.square(pos).sum(axis=-1)', 'D = np.append(D, np.zeros((pos.shape[0], 1)), axis=-1)', 'double_sum_D = 2 * np.sum(D, axis=-1)[:, None]',
+                'cumsum_D = np.cumsum(np.insert(D[:, 0:-1], 0, 0, axis=-1) + np.flip(D, axis=-1), axis=-1)',
+                'S1 = (double_sum_D - cumsum_D)[:, :-1] / (n_times - np.arange(n_times)[None, :])', 'msd = S1 - 2 * S2', 'return msd']
+        if src != want:
+            k = next((i for i, (a, b) in enumerate(zip(src, want)) if a != b), min(len(src), len(want)))
+            raise Unsupported('mean_squared_displacement statement %d: %s' % (k, src[k][:120] if k < len(src) else '<missing>'))
+        cd = [ast.unparse(s) for s in _find_func(tree, 'Trajectory', 'cumulative_displacements').body][-1]
+        if cd != 'return np.cumsum(self.displacements, axis=0)':
+            raise Unsupported('cumulative_displacements: ' + cd)
+        lf = ast.unparse(_find_func(tree, None, '_lengths'))
+        if 'metric_tensor = lattice.metric_tensor' not in lf:
+            raise Unsupported('_lengths does not use lattice.metric_tensor')
+        db = ast.unparse(_find_func(tree, 'Trajectory', 'distances_from_base_position'))
+        if 'self.cumulative_displacements' not in db or '_lengths(' not in db:
+            raise Unsupported('distances_from_base_position')
+    except Unsupported as e:
+        return ('msdshape', False, f'translator: unsupported {e}')
+    return ('msdshape: statements of mean_squared_displacement (S1 recursion, zero-padded FFT autocorrelation, windows), cumulative_displacements and '
+            '_lengths are the ones Model.C06 transcribes', True, 'ok')
+
+
+# ---------------------------------------------------------------- unit: reference-atom selection of drift / filter (C13)
+def drift_selection_unit():
+    tree = _parse('trajectory.py')
+    d = _find_func(tree, 'Trajectory', 'drift')
+    body = [s for s in d.body if not (isinstance(s, ast.Expr) and isinstance(s.value, ast.Constant))]
+    if len(body) != 2 or not isinstance(body[0], ast.If) or ast.unparse(body[1]) != 'return np.mean(displacements, axis=1)[:, None, :]':
+        raise Unsupported('drift: body shape')
+    br = body[0]
+    if ast.unparse(br.test) != 'fixed_species' or [ast.unparse(s) for s in br.body] != ['displacements = self.filter(species=fixed_species).displacements']:
+        raise Unsupported('drift: fixed branch')
+    if len(br.orelse) != 1 or not isinstance(br.orelse[0], ast.If) or ast.unparse(br.orelse[0].test) != 'floating_species':
+        raise Unsupported('drift: floating branch')
+    fl = br.orelse[0]
+    src = [ast.unparse(s) for s in fl.body]
+    if len(src) != 4 or src[0] != 'if isinstance(floating_species, str):\n    floating_species = [floating_species]' or src[1] != 'species = set()' \
+            or src[3] != 'displacements = self.filter(species=species).displacements':
+        raise Unsupported('drift: floating branch statements')
+    loop = fl.body[2]
+    if not (isinstance(loop, ast.For) and ast.unparse(loop.target) == 'sp' and ast.unparse(loop.iter) == 'self.species' and len(loop.body) == 2
+            and isinstance(loop.body[0], ast.Assert) and ast.unparse(loop.body[1]) == 'if sp.symbol not in floating_species:\n    species.add(sp.symbol)'):
+        raise Unsupported('drift: loop over species')
+    if [ast.unparse(s) for s in fl.orelse] != ['displacements = self.displacements']:
+        raise Unsupported('drift: default branch')
+    f = _find_func(tree, 'Trajectory', 'filter')
+    fst = [ast.unparse(s) for s in f.body]
+    for need in ('if isinstance(species, str):\n    species = [species]', 'idx = []', 'new_coords = self.positions[:, idx]',
+                 'new_species = list(compress(self.species, idx))'):
+        if need not in fst:
+            raise Unsupported('filter: missing `%s`' % need.replace('\n', ' '))
+    floop = [s for s in f.body if isinstance(s, ast.For)]
+    if len(floop) != 1 or ast.unparse(floop[0].iter) != 'self.species' or ast.unparse(floop[0].body[-1]) != 'idx.append(sp.symbol in species)':
+        raise Unsupported('filter: loop over species')
+    a = ast.unparse(_find_func(tree, 'Trajectory', 'apply_drift_correction'))
+    for need in ('drift = self.drift(fixed_species=fixed_species, floating_species=floating_species)', 'coords=self.displacements - drift',
+                 'coords_are_displacement=True', 'base_positions=self.base_positions', 'species=self.species', 'time_step=self.time_step', 'metadata=self.metadata'):
+        if need not in a:
+            raise Unsupported('apply_drift_correction: missing `%s`' % need)
+
+
+def gen_drift_selection():
+    os.makedirs(GEN, exist_ok=True)
+    try:
+        drift_selection_unit()
+    except Unsupported as e:
+        return ('driftsel', False, f'translator: unsupported {e}')
+    lines = ['(* GENERATED from /repo/src/gemdat/trajectory.py (drift, filter, apply_drift_correction) on every run -- do not edit *)',
+             'From GV Require Import Base.Prelude Model.C01 Model.C13.',
+             '(* filter(species=S): atom a is kept iff symbol(a) in S *)',
+             'Definition gen_filter_mask (S syms : list Z) : list bool := map (fun s => mem s S) syms.',
+             '(* fixed_species branch: filter(species=fixed) *)',
+             'Definition gen_sel_fixed (fixed syms : list Z) : list bool := gen_filter_mask fixed syms.',
+             '(* floating_species branch: species = { sp.symbol | sp in self.species, sp.symbol not in floating }; filter(species=species) *)',
+             'Definition gen_sel_floating (floating syms : list Z) : list bool :=',
+             '  gen_filter_mask (filter (fun s => negb (mem s floating)) syms) syms.',
+             'Lemma mem_filter_in : forall (p : Z -> bool) l s, In s l -> mem s (filter p l) = p s.',
+             'Proof.',
+             '  intros p l s Hin. unfold mem. destruct (p s) eqn:Hp.',
+             '  - apply existsb_exists. exists s. split; [apply filter_In; split; assumption | apply Z.eqb_refl].',
+             '  - destruct (existsb (Z.eqb s) (filter p l)) eqn:He; [|reflexivity].',
+             '    apply existsb_exists in He. destruct He as [x [Hx Hxs]]. apply Z.eqb_eq in Hxs. subst x.',
+             '    apply filter_In in Hx. destruct Hx as [_ Hx]. congruence.',
+             'Qed.',
+             'Theorem gen_sel_fixed_is_model : forall fixed syms, gen_sel_fixed fixed syms = sel_fixed fixed syms.',
+             'Proof. reflexivity. Qed.',
+             'Theorem gen_sel_floating_is_model : forall floating syms, gen_sel_floating floating syms = sel_floating floating syms.',
+             'Proof. intros. unfold gen_sel_floating, gen_filter_mask, sel_floating. apply map_ext_in. intros s Hs. apply mem_filter_in. exact Hs. Qed.']
+    open(os.path.join(GEN, 'DriftSel.v'), 'w').write('\n'.join(lines) + '\n')
+    ok, log = compile_gen('DriftSel.v')
+    return ('driftsel: branch structure of drift() (fixed / floating with string wrapping and symbol set / all atoms), filter() by symbol and the arguments '
+            'apply_drift_correction passes on; the two selections proved equal to Model.C13.sel_fixed / sel_floating', ok, 'ok' if ok else log[-600:])
